@@ -83,6 +83,25 @@ func genSrvRobust(repo string) (string, error) {
 		}
 		return true
 	})
+	// (2c) suitableRefType: is there still a loop around slices.Delete?
+	sr, err := srvrobFindFunc(fset, filepath.Join(repo, "server"), "suitableRefType")
+	if err != nil {
+		return "", err
+	}
+	deleteLoop := false
+	ast.Inspect(sr.Body, func(n ast.Node) bool {
+		if f, ok := n.(*ast.ForStmt); ok {
+			ast.Inspect(f.Body, func(m ast.Node) bool {
+				if c, ok := m.(*ast.CallExpr); ok {
+					if s, ok := c.Fun.(*ast.SelectorExpr); ok && s.Sel.Name == "Delete" {
+						deleteLoop = true
+					}
+				}
+				return true
+			})
+		}
+		return true
+	})
 	// (3) recover() anywhere in package server / uasc (non-test, non-hook files)
 	var recoverers []string
 	for _, pkg := range []string{"server", "uasc"} {
@@ -131,6 +150,8 @@ func genSrvRobust(repo string) (string, error) {
 	fmt.Fprintf(&sb, "def dispatcherInline : Bool := %v\n\n", inline > 0 && underGo == 0)
 	sb.WriteString("/-- `writeMessageChunks` (the response path) sets a write deadline -/\n")
 	fmt.Fprintf(&sb, "def responseWriteDeadline : Bool := %v\n\n", deadline)
+	sb.WriteString("/-- `suitableRefType` contains a `for` loop around `slices.Delete` (the loop whose index is never recomputed) -/\n")
+	fmt.Fprintf(&sb, "def refTypeDeleteLoop : Bool := %v\n\n", deleteLoop)
 	sb.WriteString("/-- functions of packages server and uasc that call `recover()` -/\n")
 	fmt.Fprintf(&sb, "def recoverers : List String := %s\n\n", srvsecLeanList(recoverers))
 	sb.WriteString("/-- (reference type id, `getSubRefs(srv, id)` as numeric ids, in order) for every ReferenceType node of ns 0 -/\n")
